@@ -522,6 +522,14 @@ func (x *exec) unit(u Unit) {
 			return
 		}
 	}
+	// 4a. the zero value of the Go type, where it denotes the type's default value (it encodes to the
+	// default encoding): its root is the default value's root
+	if frng.Chance(1, 6) {
+		x.zeroValue(u, e, t)
+		if x.stop {
+			return
+		}
+	}
 	// 4b. the struct form's own conversion to a tree view, where the type has one
 	x.structToView(u, o, b, root)
 	if x.stop {
@@ -535,6 +543,38 @@ func (x *exec) unit(u Unit) {
 	// 6. damaged records
 	for k := 0; k < 4 && !x.stop; k++ {
 		x.damaged(u, e, t, b, frng)
+	}
+}
+
+func (x *exec) zeroValue(u Unit, e *entry, t *T) {
+	def := Default(t)
+	want, err := Parse(t, def)
+	if err != nil {
+		x.res.Harness = fmt.Sprintf("the default encoding of %s does not parse: %v", u.Type, err)
+		x.stop = true
+		return
+	}
+	z := lib{x.spec, e.Alloc()}
+	var out bytes.Buffer
+	var serr error
+	if p := guard(func() { serr = z.serialize(&out) }); p != "" || serr != nil || !bytes.Equal(out.Bytes(), def) {
+		// the zero Go value is not a value of the type (nil where a vector is expected, ...): no verdict
+		x.res.Stat("zero_values_not_the_default/"+u.Type, 1)
+		return
+	}
+	x.res.Stat("zero_value_roots", 1)
+	var r common.Root
+	var ok bool
+	if p := guard(func() { r, ok = z.root() }); p != "" {
+		x.viol("C05", "zero-value-root-panics/"+u.Type, fmt.Sprintf("%s (%s): the zero value serializes as the default value, but its HashTreeRoot panics: %s", u.Type, x.presetName(), p))
+		return
+	}
+	if ok && r != common.Root(want) {
+		x.viol("C05", "zero-value-root/"+u.Type, fmt.Sprintf("%s (%s): the zero value serializes as the default value (%d bytes), but its struct HashTreeRoot is %s and the default value's root by the specification's schema is %x", u.Type, x.presetName(), len(def), r, want))
+		return
+	}
+	if bl, has := z.byteLength(); has && bl != uint64(len(def)) {
+		x.viol("C04", "zero-value-byte-length/"+u.Type, fmt.Sprintf("%s: the zero value reports ByteLength %d and writes %d bytes", u.Type, bl, len(def)))
 	}
 }
 
